@@ -471,10 +471,48 @@ func TestC14(t *testing.T) {
 	runWitnesses(t, "C14")
 	runProp(t, "library", 300, 20000, func(t *rapid.T) {
 		ev := xmodel.Gen(t, xmodel.GenCfg{MaxDepth: 3, MaxKids: 4, Names: []string{"a", "b", "c"}, Numeric: true, Wide: true})
+		// one case in five: an attribute-heavy element (9-24 attributes, xml:lang somewhere among them) in a tree
+		// nobody has queried yet, and attribute look-ups by name from several goroutines at once (whatever an
+		// element builds lazily for its attributes is built on first use)
+		heavy := rapid.IntRange(0, 4).Draw(t, "attributeHeavy") == 0
+		if heavy {
+			var starts []int
+			for i, e := range ev {
+				if e.K == "S" {
+					starts = append(starts, i)
+				}
+			}
+			if len(starts) > 0 {
+				at := starts[rapid.IntRange(0, len(starts)-1).Draw(t, "heavyElement")] + 1
+				hasLang := false
+				for at < len(ev) && (ev[at].K == "N" || ev[at].K == "A") {
+					if ev[at].K == "A" && ev[at].Space == xmodel.XMLNS && ev[at].Local == "lang" {
+						hasLang = true
+					}
+					at++
+				}
+				n := rapid.IntRange(9, 24).Draw(t, "heavyAttrs")
+				langAt := rapid.IntRange(0, n-1).Draw(t, "heavyLangAt")
+				var extra []xmodel.Event
+				for i := 0; i < n; i++ {
+					if i == langAt && !hasLang {
+						extra = append(extra, xmodel.Event{K: "A", Space: xmodel.XMLNS, Local: "lang", Prefix: "xml", Value: []string{"en", "de", "en-US"}[rapid.IntRange(0, 2).Draw(t, "heavyLang")]})
+						continue
+					}
+					extra = append(extra, xmodel.Event{K: "A", Local: fmt.Sprintf("h%c%c", 'z'-rune(i%7), 'a'+rune(i)), Value: fmt.Sprint(i % 3)})
+				}
+				ev = append(append(append([]xmodel.Event{}, ev[:at]...), extra...), ev[at:]...)
+				st.Class("attribute-heavy element in the tree")
+			}
+		}
 		doc := xmodel.Build(ev)
 		elems, attrs, _ := docNames(doc)
 		g := &xast.G{T: t, Env: xast.GenEnv{ElemNames: queryable(elems), AttrNames: queryable(attrs), Prefixes: []string{"x", "y"}, NumVars: []string{"n"}, StrVars: []string{"s"}, NodeVars: []string{"v"}, NoLang: true}}
 		c := &c14Case{Events: ev, Threads: rapid.IntRange(2, 16).Draw(t, "threads"), Rounds: rapid.IntRange(1, 4).Draw(t, "rounds"), Cold: rapid.Bool().Draw(t, "cold")}
+		if heavy {
+			c.Cold = c.Cold || rapid.IntRange(0, 3).Draw(t, "heavyCold") != 0
+			c.Exprs = append(c.Exprs, []string{"count(//*[lang('en')])", "count(//node()[lang('de')])", "//*[@hza][lang('en')]", "count(//*[@hya = 1]/@*)", "lang('en')", "string(//@hxc)"}[rapid.IntRange(0, 5).Draw(t, "heavyExpr")])
+		}
 		fixed := []string{"$v | //a", "//a | $v", "$v | $v", "$v | /nope", "($v | //b)[1]", "$v/..", "$v[last()]", "count($v | //b)", "//*/ancestor::*", "//@*/..", "$v//text()", "//a[position() = last()]", "sum(//a) + count($v)",
 			// every builtin at least twice with different arguments (shared scratch state in one builtin races only there)
 			"translate(string(//a), 'ab1', 'xyz')", "translate(string(//b), '12a', 'ba')", "translate('abcabc', 'abc', 'xyz')", "translate('abcabc', 'cba', '12')",
